@@ -130,3 +130,61 @@ Example ex_traces :
   /\ trace ex_pause = trace ex_ref /\ trace ex_log = trace ex_ref
   /\ clock ex_pause = 40 /\ flag ex_pause = false /\ flag ex_log = false.
 Proof. vm_compute. repeat split. Qed.
+
+(* ---- the model regenerated from the source IS the proved model ------------------
+   Sim/Gen_Sim.v is regenerated on every run by translator/py2gallina_sim.py from
+   simulator.py of the tree under test; Sim/GenAgree.v proves the generated methods
+   equal to the functions of Sim/Model.v the theorems above are about.  For C05 the
+   relevant ones are the try / except around event.execute() in the run loop _run
+   with its error-strategy branches (WARN_AND_PAUSE writes STOPPING, the others go
+   on), and step() with its except / finally (a failing handler is reported, STOP is
+   fired, the state is STOPPED). ---- *)
+From PV Require Import Sim.Gen_Sim Sim.GenAgree.
+
+Theorem C05_generated_model_is_the_proved_model :
+  (forall p fuel w s, rep s <> None -> gen_DEVSSimulator__run fuel p w s = GRet RNone w (run_loop fuel p s)) /\
+  (forall p w s, (rs s <> RNotInit -> rep s <> None) -> gen_Simulator_step p w s = gres_of w (do_step p s)) /\
+  (forall md p s e, gen_exec_event md p s e = exec_event md p s e) /\
+  (forall fuel p s c, sim_wf s -> gen_do_cmd fuel p s c = do_cmd fuel p s c) /\
+  (forall fuel p cs s, sim_wf s -> gen_run_cmds fuel p s cs = run_cmds fuel p s cs).
+Proof.
+  exact (conj (fun p fuel w s => gen_run_eq p fuel w s) (conj gen_step_eq (conj gen_exec_event_eq
+          (conj gen_do_cmd_eq gen_run_cmds_eq)))).
+Qed.
+Print Assumptions C05_generated_model_is_the_proved_model.
+
+Theorem C05_generated_continue_transparent_cmd : forall p fuel s c,
+  sim_wf s -> strat s <> SWarnPause -> is_init c = false ->
+  gen_do_cmd fuel (truncate p) s c = gen_do_cmd fuel p s c.
+Proof.
+  intros p fuel s c Hwf Hs Hc. rewrite !gen_do_cmd_eq by exact Hwf. apply continue_transparent; assumption.
+Qed.
+Print Assumptions C05_generated_continue_transparent_cmd.
+
+Theorem C05_generated_pause_stops_immediately : forall p fuel w s e r,
+  rep s <> None -> running s = true -> pend s = e :: r -> beyond s e = false ->
+  strat s = SWarnPause -> handler_fails p e = true ->
+  exists s', gen_DEVSSimulator__run (S fuel) p w s = GRet RNone w s'
+  /\ s' = take_event p s e r
+  /\ rs s' = RStopping /\ ps s' = ps s
+  /\ trace s' = (e, ev_time e) :: trace s /\ clock s' = ev_time e.
+Proof.
+  intros p fuel w s e r Hr R Hp B Hs Hf. exists (run_loop (S fuel) p s).
+  split; [apply gen_run_eq; exact Hr|]. apply (pause_stops_immediately p fuel s e r R Hp B Hs Hf).
+Qed.
+Print Assumptions C05_generated_pause_stops_immediately.
+
+Theorem C05_generated_step_fault_contained : forall p w s,
+  (rs s <> RNotInit -> rep s <> None) ->
+  gen_Simulator_step (truncate p) w s = gen_Simulator_step p w s
+  /\ (step_checks s = true ->
+      exists s', gen_Simulator_step p w s = GRet RNone w s'
+      /\ rs s' = RStopped /\ ps s' = PStarted
+      /\ exists t, ntfs s' = NStop t :: tl (ntfs s') /\ t = clock s').
+Proof.
+  intros p w s Hwf. rewrite !gen_step_eq by exact Hwf.
+  destruct (step_fault_contained p s) as [H1 H2]. split; [rewrite H1; reflexivity|].
+  intros Ck. destruct (H2 Ck) as (Hres & Hrs & Hps & Hn). exists (fst (do_step p s)).
+  unfold gres_of. rewrite Hres. auto.
+Qed.
+Print Assumptions C05_generated_step_fault_contained.
